@@ -14,6 +14,9 @@
         p.and(&q)?, p.or(&q)?, p.not()                     -> && || negb
         x.is_negative()? / is_nonnegative()?               -> neg x / negb (neg x)   (lowest bit of the canonical bits)
         x.abs()?                                           -> gabs neg x
+        x.to_bits_le()?                                    -> bits_le x   (the UNIQUE little-endian bit decomposition: r1cs-std enforces
+                                                              that the bits denote an integer below the modulus); bits[i] -> nth i bits false.
+                                                              `to_non_unique_bits_le` has no translation: its bits are the prover's choice.
         Boolean::new_witness(cs, || Ok(v)) / FqVar::new_witness(cs, || Ok(v))   -> the witnessed value v
   * the out-of-circuit square root in `isqrt` (`Fq::sqrt_ratio_zeta(&ONE, &den)`) is replaced by the HINT parameters
     (hint_ws, hint_y): the prover is free to witness anything; `x.isqrt()?` inside another gadget becomes a call of the
@@ -33,9 +36,11 @@ class GTr:
         if n.k == 'un': return 'B' if n.op == '!' else self.typeof(n.a)
         if n.k == 'mcall':
             if n.name in ('is_eq', 'is_negative', 'is_nonnegative', 'and', 'or', 'not'): return 'B'
+            if n.name == 'to_bits_le': return 'L'
             if n.name in ('clone', 'unwrap_or'): return self.typeof(n.e)
             return 'F'
         if n.k == 'try': return self.typeof(n.e)
+        if n.k == 'index': return 'B'
         if n.k == 'call' and n.f in ('Boolean::new_witness',): return 'B'
         if n.k == 'call' and n.f.endswith('conditionally_select'): return self.typeof(n.args[1])
         return 'F'
@@ -50,8 +55,8 @@ class GTr:
             if c: return c
             if nm == 'self': return 'self_'
             if nm in ('Fq::ONE',): return '1'
-            if nm == 'Boolean::TRUE': return 'true'
-            if nm == 'Boolean::FALSE': return 'false'
+            if nm in ('Boolean::TRUE', 'Boolean::<Fq>::TRUE'): return 'true'
+            if nm in ('Boolean::FALSE', 'Boolean::<Fq>::FALSE'): return 'false'
             if '::' in nm: raise TranslationError('unknown path %s' % nm)
             return rs2v.RESERVED and (nm + '_' if nm in rs2v.RESERVED else nm)
         if k == 'un':
@@ -96,6 +101,7 @@ class GTr:
             if m == 'is_negative': return '(neg %s)' % x
             if m == 'is_nonnegative': return '(negb (neg %s))' % x
             if m == 'abs': return '(gabs neg %s)' % x
+            if m == 'to_bits_le': return '(bits_le %s)' % x
             if m == 'isqrt':
                 # a nested call of the (generated) isqrt gadget on this gadget's hint pair
                 self.pre.append('fst (isqrt_gen %s hint_ws hint_y)' % x)
@@ -119,6 +125,9 @@ class GTr:
             if f == 'Fq::from' and n.args[0].k == 'int': return '(fofZ %d)' % n.args[0].v
             if f in ('AffineVar::new',): return '(%s, %s)' % (self.e(n.args[0]), self.e(n.args[1]))
             raise TranslationError('gadget call %s' % f)
+        if k == 'index':
+            if self.typeof(n.e) != 'L' or n.ix.k != 'int': raise TranslationError('gadget index expression')
+            return '(List.nth %d %s false)' % (n.ix.v, self.e(n.e))
         if k == 'struct':
             d = dict(n.fields)
             if set(d) == {'inner'}: return self.e(d['inner'])
@@ -184,6 +193,9 @@ class GTr:
 
 CONSTS = {'P::COEFF_A': 'cA', 'P::COEFF_D': 'cD', 'ZETA': 'zeta', 'Fq::ONE': '1', 'Decaf377EdwardsConfig::COEFF_A': 'cA', 'Decaf377EdwardsConfig::COEFF_D': 'cD', 'D4': 'D4'}
 GTARGETS = [
+  ('is_nonnegative_gen', 'src/ark_curve/r1cs/fqvar_ext.rs', 'is_nonnegative', 'impl FqVarExtension for FqVar', '(self_ : F) : bool * bool', {}),
+  ('is_negative_gen', 'src/ark_curve/r1cs/fqvar_ext.rs', 'is_negative', 'impl FqVarExtension for FqVar', '(self_ : F) : bool * bool', {}),
+  ('abs_gen', 'src/ark_curve/r1cs/fqvar_ext.rs', 'abs', 'impl FqVarExtension for FqVar', '(self_ : F) : bool * F', {}),
   ('isqrt_gen', 'src/ark_curve/r1cs/fqvar_ext.rs', 'isqrt', 'impl FqVarExtension for FqVar', '(self_ : F) (hint_ws : bool) (hint_y : F) : bool * (bool * F)', {}),
   ('decode_gen', 'src/ark_curve/r1cs/inner.rs', 'decompress_from_field', None, '(s_var : F) (hint_ws : bool) (hint_y : F) : bool * (F * F)', {}),
   ('encode_gen', 'src/ark_curve/r1cs/inner.rs', 'compress_to_field', None, '(self_x self_y : F) (hint_ws : bool) (hint_y : F) : bool * F', {}),
@@ -198,6 +210,7 @@ Section GeneratedGadgets.
   Variables (cA cD zeta : F).
   Variable neg : F -> bool.
   Variable sr : F -> F -> bool * F.
+  Variable bits_le : F -> list bool.     (* ToBitsGadget::to_bits_le: the unique (range-checked) little-endian bits *)
   Local Notation "0" := zero. Local Notation "1" := one.
   Local Infix "+" := add. Local Infix "*" := mul. Local Infix "-" := sub.
   Local Notation "- x" := (opp x).
